@@ -85,4 +85,10 @@ theorem C11_tags_all_loaders_agree :
 theorem C11_unknown_tag_untouched :
     loadTaggedScalar "Foo" = .asIs ∧ loadTaggedSequence "Foo" = .asIs ∧ loadTaggedSerde "Foo" = .asIs := by decide
 
+/-- **`-0` is the integer 0** whatever the float oracle says (so a document and a test input that spell `-0` mean the
+    same number in `validate` and in `test`), and `-0.0` is not an integer spelling -/
+theorem C11_negative_zero (env : Env) :
+    typeScalar env .plain "-0".toList = .int 0 ∧ parseI64 "-0.0".toList = none := by
+  refine ⟨C11_json_int env _ 0 (by decide), by decide⟩
+
 end Guard.C11
